@@ -30,6 +30,10 @@ def build(ctx):
     os.makedirs(d, exist_ok=True)
     exe = os.path.join(d, 'repro')
     ptgpp = os.path.join(b, 'parsec/interfaces/ptg/ptg-compiler/parsec-ptgpp')
+    deps = [os.path.join(HERE, 'repro.jdf'), os.path.join(HERE, 'repro_main.c'), ptgpp, os.path.join(b, 'parsec/libparsec.so'),
+            os.path.join(vlib.VERIF, 'engine/rt/vdc.h')]
+    if os.path.exists(exe) and all(os.path.getmtime(exe) > os.path.getmtime(f) for f in deps):
+        return exe                                   # up to date (the library itself is found through rpath at run time)
     subprocess.run(['cp', os.path.join(HERE, 'repro.jdf'), d], check=True)
     r = subprocess.run([ptgpp, '-i', 'repro.jdf', '-o', 'repro', '-f', 'repro'], cwd=d, capture_output=True, text=True)
     if not os.path.exists(os.path.join(d, 'repro.c')):
@@ -45,18 +49,35 @@ def build(ctx):
     return exe
 
 
+_seq = [0]
+
+
 def launch(exe, n, rng, topo, timeout):
+    import signal
     env = dict(ENV, PARSEC_MCA_runtime_comm_coll_bcast=str(topo))
-    cmd = ['mpiexec', '-n', str(n), '--oversubscribe', exe] + [str(x) for x in rng]
+    _seq[0] += 1
+    tag = 'c13tag%d_%d' % (os.getpid(), _seq[0])                       # unique argv token: lets us find stray ranks of this launch
+    cmd = ['mpiexec', '-n', str(n), '--oversubscribe', exe] + [str(x) for x in rng] + [tag]
     t0 = time.time()
+    p = subprocess.Popen(cmd, env=env, stdout=subprocess.PIPE, stderr=subprocess.STDOUT, text=True, start_new_session=True)
+    hung = False
     try:
-        r = subprocess.run(cmd, env=env, capture_output=True, text=True, timeout=timeout)
-        out, rc, hung = r.stdout + r.stderr, r.returncode, False
-    except subprocess.TimeoutExpired as e:
-        out = ((e.stdout or b'').decode(errors='replace') if isinstance(e.stdout, bytes) else (e.stdout or '')) + \
-              ((e.stderr or b'').decode(errors='replace') if isinstance(e.stderr, bytes) else (e.stderr or ''))
-        rc, hung = -1, True
-        subprocess.run(['pkill', '-f', exe + ' ' + ' '.join(str(x) for x in rng)], capture_output=True)
+        out, _ = p.communicate(timeout=timeout)
+        rc = p.returncode
+    except subprocess.TimeoutExpired:
+        hung = True
+        p.terminate()                                                   # mpiexec forwards the signal and cleans its ranks up
+        try:
+            out, _ = p.communicate(timeout=10)
+        except subprocess.TimeoutExpired:
+            try:
+                os.killpg(p.pid, signal.SIGKILL)
+            except OSError:
+                pass
+            out, _ = p.communicate()
+        rc = -1
+    subprocess.run(['pkill', '-9', '-f', tag], capture_output=True)
+    out = out or ''
     ok = sum(1 for l in out.splitlines() if l.startswith('RANK ') and ' OK ' in l)
     bad = [l for l in out.splitlines() if (l.startswith('RANK ') and ' BAD ' in l) or 'Assertion' in l]
     good = (rc == 0 and ok == n and not bad)
@@ -82,20 +103,35 @@ def predict(ctx, coll_exe, n, rng, topo, known):
 
 
 def cases():
+    """The two designated reproducers first, then the rest of the box."""
+    first = [(3, (1, 2, 2, 2), t) for t in (0, 1, 2)] + [(4, (1, 3, 3, 3), t) for t in (0, 1, 2)]
+    rest = []
     for n in (3, 4):
         rngs = [(lo, hi) for lo in range(1, n) for hi in range(lo, n)]
         for a in rngs:
             for b in rngs:
                 for topo in (0, 1, 2):
-                    yield n, (a[0], a[1], b[0], b[1]), topo
+                    c = (n, (a[0], a[1], b[0], b[1]), topo)
+                    if c not in first:
+                        rest.append(c)
+    return first + rest
 
 
-def run(ctx, known, coll_exe, only=None):
+def run(ctx, known, coll_exe, only=None, budget=420):
     exe = build(ctx)
-    todo = list(cases()) if only is None else [only]
+    todo = cases() if only is None else [only]
     t0 = time.time()
-    with ThreadPoolExecutor(max_workers=3) as ex:
-        res = list(ex.map(lambda c: launch(exe, c[0], c[1], c[2], 20), todo))
+    # the machine is shared: generous limits, two launches at a time, and a wall-clock budget after which no new launch is started
+    limit1, limit2 = 90, 300
+
+    def first_pass(c):
+        if time.time() - t0 > budget:
+            return None
+        return launch(exe, c[0], c[1], c[2], limit1)
+    with ThreadPoolExecutor(max_workers=2) as ex:
+        res = list(ex.map(first_pass, todo))
+    skipped = sum(1 for r in res if r is None)
+    todo, res = [c for c, r in zip(todo, res) if r is not None], [r for r in res if r is not None]
     nfail = nknown = nviol = 0
     outcomes = set()
     samples = []
@@ -105,7 +141,7 @@ def run(ctx, known, coll_exe, only=None):
         pred = predict(ctx, coll_exe, n, rng, topo, known)
         label = 'n=%d P(0)@0: A->C1(%d..%d) B->C2(%d..%d) topology=%s' % (n, rng[0], rng[1], rng[2], rng[3], TOPO[topo])
         if not good:                                     # never believe a failure seen under load: re-run alone, longer limit
-            good, how, dt = launch(exe, n, rng, topo, 60)
+            good, how, dt = launch(exe, n, rng, topo, limit2)
         key = (TOPO[topo], n)
         per.setdefault(key, [0, 0])
         per[key][0] += 1
@@ -133,7 +169,8 @@ def run(ctx, known, coll_exe, only=None):
         ctx.known_finding('id=%s topology=%s real MPI runs on %d processes: %d launch(es) fail exactly where the E3 search predicts an attributable loss; e.g. %s'
                           % (FINDINGS[topo], TOPO[topo], n, len(l), l[0]))
     ctx.add_leg(name='mpi_two_output_program', leg='mp', engine='mp', states=len(todo), transitions=sum(c[0] for c in todo), executions=len(todo),
-                nontrivial=sum(1 for c in todo if c[1][:2] != c[1][2:]), distinct_outcomes=len(outcomes), exhaustive=True,
+                nontrivial=sum(1 for c in todo if c[1][:2] != c[1][2:]), distinct_outcomes=len(outcomes), exhaustive=(skipped == 0),
+                launches_not_started_budget=skipped,
                 launches=len(todo), failing_launches=nfail, failing_attributed_to_known_finding=nknown, violations=nviol,
                 per_topology_n={'%s/n=%d' % k: {'launches': v[0], 'failing': v[1]} for k, v in sorted(per.items())},
                 wall_s=round(time.time() - t0, 1), samples=samples)
